@@ -396,8 +396,9 @@ namespace avel {
         typename std::enable_if<N < mask4x32u::width, int>::type dummy_variable = 0;
 
         #if defined(AVEL_AVX512VL) || defined(AVEL_AVX10_1)
-        auto mask = b << N;
-        return mask4x32u{__mmask8((decay(m) & ~mask) | mask)};
+        auto bit = std::uint64_t(1) << N;
+        auto mask = std::uint64_t(b) << N;
+        return mask4x32u{__mmask8((decay(m) & ~bit) | mask)};
 
         #elif defined(AVEL_SSE4_1)
         auto mask = std::uint32_t(b ? -1 : 0);
